@@ -70,9 +70,9 @@ def check_overflow(res, limit=1e100):
     for pop in res.model.pops:
         for par in pop.pars:
             pv = np.asarray(par.vals, dtype=float)
-            bad = np.nonzero(np.isnan(pv))[0]
+            bad = np.nonzero(~np.isfinite(pv))[0]
             if bad.size and int(bad[0]) <= first_bad_stock and (par.links or getattr(par, "_is_dynamic", False)):
-                raise Discard("a parameter is NaN while all stocks are still finite (function outside its domain; parameters are decided by C06)")
+                raise Discard("a parameter is NaN or infinite while all stocks are still finite (function outside its domain, e.g. x/0; parameters are decided by C06)")
     for pop, c in all_comps(res):
         v = np.asarray(c.vals, dtype=float)
         with np.errstate(invalid="ignore"):
